@@ -211,7 +211,24 @@ def streams(rng, tier):
                      "(inputs that look like ASCII text / hex digits included), which is compared with the model's display",
                 nontrivial=lambda op, impl: " | " in impl)
     s6.shrinkable = False
-    return [s1, s2, s3, s4, s5, s6]
+    # format specifications other than `{}`: the notation is one text, no flag of the caller's Formatter reaches the items inside it
+    fo = []
+    for t in trees[:400 if q else 8000]:
+        e = W.enc(t)
+        if len(e) <= 300: fo.append("displayf " + e.hex())
+    fo += ["displayf 8301f5fb3ff4000000000000", "displayf a2f4f5203903e7", "displayf 9f01fa3fa00000f97e00ff", "displayf c11a514b67b0", "displayf 8201", "displayf -", "displayf fb3ff8000000000000"]
+    def judge_f(op, impl, model, spec):
+        if not impl.startswith("same "):
+            return "violation"
+        ib, mp = disp.canon_impl(impl[5:]), disp.model_pieces(model)
+        if ib is None:
+            return "violation"
+        return "ok" if mp is not None and disp.match(mp, ib) else "corr"
+    s7 = Stream("format-specifications", "hcore", fo, model_ops=["display " + o[9:] for o in fo], judge=judge_f, nontrivial=lambda op, impl: impl.startswith("same"),
+                rule="displayf: minicbor::display and Decoder::tokens() written with width / alignment / fill / precision / sign / zero-padding / alternate "
+                     "specifications: the same text as with `{}` (and within the size bound), which is compared with the model's")
+    s7.shrinkable = False
+    return [s1, s2, s3, s4, s5, s6, s7]
 
 
 def replay_streams(rp):
@@ -219,6 +236,10 @@ def replay_streams(rp):
     if "#D=" in full:
         d = int(full.split("#D=")[1].split(":")[1])
         return [Stream("replay", "hcore", [full], model_ops=[" ".join(full.split(" ")[:2]) if d <= DEEP_MODEL_MAX else "display 00"], judge=judge_deep)]
+    if full.startswith("displayf"):
+        def jf(o, impl, model, spec):
+            return "ok" if impl.startswith("same ") else "violation"
+        return [Stream("replay", "hcore", [full], model_ops=["display " + full[9:]], judge=jf)]
     if full.startswith("cli"):
         return [Stream("replay", "hcore", [full], model_ops=["display " + full[4:]], judge=judge_cli)]
     if full.startswith("displayat"):
